@@ -236,10 +236,18 @@ fn build_intent<'b, 'r, 'c, 's:'c, 'm:'c>(rules_with_context: &'r mut SpeechRule
                 intent.set_attribute_value(INTENT_PROPERTY, &properties);
             } else {
                 let saved_intent = mathml.attribute_value(INTENT_ATTR).unwrap();
+                let saved_property = mathml.attribute_value(INTENT_PROPERTY);
                 mathml.remove_attribute(INTENT_ATTR);
                 mathml.set_attribute_value(INTENT_PROPERTY, &properties);   // needs to be set before the pattern match
-                intent = rules_with_context.match_pattern::<Element<'m>>(mathml)?;
+                let result = rules_with_context.match_pattern::<Element<'m>>(mathml);
+                // 'mathml' is (part of) the expression that was set -- leave it as it was (also if there was an error)
+                //   otherwise overview, navigation, etc., depend on whether the speech was generated before them
                 mathml.set_attribute_value(INTENT_ATTR, saved_intent);
+                match saved_property {
+                    Some(saved_property) => {mathml.set_attribute_value(INTENT_PROPERTY, saved_property);},
+                    None => mathml.remove_attribute(INTENT_PROPERTY),
+                };
+                intent = result?;
             }
             return Ok(intent);      // if we start with properties, then there can only be properties
         },
